@@ -4,6 +4,7 @@ go 1.26.8
 
 require (
 	github.com/DrmagicE/gmqtt v0.0.0
+	github.com/golang/protobuf v1.5.4
 	github.com/gomodule/redigo v1.8.2
 	github.com/gorilla/websocket v1.4.2
 	google.golang.org/grpc v1.79.3
@@ -14,7 +15,6 @@ require (
 	github.com/armon/go-metrics v0.0.0-20180917152333-f0300d1749da // indirect
 	github.com/beorn7/perks v1.0.1 // indirect
 	github.com/cespare/xxhash/v2 v2.3.0 // indirect
-	github.com/golang/protobuf v1.5.4 // indirect
 	github.com/google/btree v1.0.0 // indirect
 	github.com/google/uuid v1.6.0 // indirect
 	github.com/grpc-ecosystem/go-grpc-middleware v1.0.0 // indirect
